@@ -13,7 +13,7 @@ func init() {
 	register(&propInfo{
 		ID:          "C03",
 		Run:         runC03,
-		MinObl:      8,
+		MinObl:      15,
 		Explanation: "Decided: R1 the PKCE binding is never consumed by a failed attempt — after every DeletePKCERequestSession call site each reachable exit is a success exit or returns that call's own error; R2 every success exit of the PKCE verify function is one of (a) found ∧ len(verifier)∈[43,128] ∧ format regex rejects nothing ∧ challenge non-empty ∧ (method==S256 ∧ b64url(sha256(verifier))==challenge ∨ method≠S256 ∧ verifier==challenge), (b) found ∧ ¬EnforcePKCE ∧ empty challenge ∧ empty verifier, (c) not-found ∧ empty verifier ∧ ¬EnforcePKCE ∧ ¬(EnforceForPublic ∧ IsPublic); the format regular expression constant is evaluated by the checker on all byte values; R3 challenge and method compared are those of the stored authorization request; R4 authorization side: a non-empty challenge is persisted under the code's signature with a whitelist keeping code_challenge and code_challenge_method, plain/empty method requires the opt-in (layers: authorize time or token time), an absent challenge requires that PKCE is not enforced. NOT decided: hash correctness, other stores, histories beyond the delete-ordering clause.",
 	})
 }
